@@ -333,7 +333,7 @@ func subinclude(s *scope, args []pyObject) pyObject {
 	}
 	var si []string
 	for _, arg := range args {
-		if l, ok := arg.(pyList); ok {
+		if l, ok := asList(arg); ok {
 			for _, e := range l {
 				if l, ok := e.(pyString); ok {
 					si = append(si, string(l))
@@ -454,7 +454,7 @@ func isinstance(s *scope, args []pyObject) pyObject {
 
 	var types pyList
 
-	if l, ok := typesArg.(pyList); ok {
+	if l, ok := asList(typesArg); ok {
 		types = l
 	} else {
 		types = pyList{typesArg}
@@ -486,9 +486,9 @@ func isType(obj pyObject, name string) bool {
 		return name == "str"
 	case *pyRange:
 		return name == "range"
-	case pyList:
+	case pyList, pyFrozenList:
 		return name == "list"
-	case pyDict:
+	case pyDict, pyFrozenDict:
 		return name == "dict"
 	case *pyConfig:
 		return name == "config"
@@ -848,7 +848,7 @@ func dictCopy(s *scope, args []pyObject) pyObject {
 }
 
 func sorted(s *scope, args []pyObject) pyObject {
-	l, isList := args[0].(pyList)
+	l, isList := asList(args[0])
 	key, isFunc := args[1].(*pyFunc)
 	reverse, isBool := args[2].(pyBool)
 	s.Assert(isList, "Argument seq must be a list, not %s", args[0].Type())
@@ -882,7 +882,7 @@ func sorted(s *scope, args []pyObject) pyObject {
 }
 
 func reversed(s *scope, args []pyObject) pyObject {
-	l, ok := args[0].(pyList)
+	l, ok := asList(args[0])
 	s.Assert(ok, "irreversible type %s", args[0].Type())
 	l = slices.Clone(l) // reversed() returns a copy; the argument must not be reordered
 	slices.Reverse(l)
@@ -891,7 +891,7 @@ func reversed(s *scope, args []pyObject) pyObject {
 
 func filter(s *scope, args []pyObject) pyObject {
 	f, isFunc := args[0].(*pyFunc)
-	l, isList := args[1].(pyList)
+	l, isList := asList(args[1])
 	s.Assert(isFunc, "Argument filter must be callable, not %s", args[0].Type())
 	s.Assert(isList, "Argument seq must be a list, not %s", args[1].Type())
 
@@ -911,7 +911,7 @@ func filter(s *scope, args []pyObject) pyObject {
 
 func mapFunc(s *scope, args []pyObject) pyObject {
 	mapper, isFunc := args[0].(*pyFunc)
-	l, isList := args[1].(pyList)
+	l, isList := asList(args[1])
 	s.Assert(isFunc, "Argument mapper must be callable, not %s", args[0].Type())
 	s.Assert(isList, "Argument seq must be a list, not %s", args[1].Type())
 
@@ -929,7 +929,7 @@ func mapFunc(s *scope, args []pyObject) pyObject {
 
 func reduce(s *scope, args []pyObject) pyObject {
 	reducer, isFunc := args[0].(*pyFunc)
-	l, isList := args[1].(pyList)
+	l, isList := asList(args[1])
 	s.Assert(isFunc, "Argument reducer must be callable, not %s", args[0].Type())
 	s.Assert(isList, "Argument seq must be a list, not %s", args[1].Type())
 
@@ -1049,7 +1049,7 @@ func pyRangeFunc(s *scope, args []pyObject) pyObject {
 }
 
 func enumerate(s *scope, args []pyObject) pyObject {
-	l, ok := args[0].(pyList)
+	l, ok := asList(args[0])
 	s.Assert(ok, "Argument to enumerate must be a list, not %s", args[0].Type())
 	ret := make(pyList, len(l))
 	for i, li := range l {
@@ -1059,7 +1059,7 @@ func enumerate(s *scope, args []pyObject) pyObject {
 }
 
 func anyFunc(s *scope, args []pyObject) pyObject {
-	l, ok := args[0].(pyList)
+	l, ok := asList(args[0])
 	s.Assert(ok, "Argument to any must be a list, not %s", args[0].Type())
 	for _, li := range l {
 		if li.IsTruthy() {
@@ -1070,7 +1070,7 @@ func anyFunc(s *scope, args []pyObject) pyObject {
 }
 
 func allFunc(s *scope, args []pyObject) pyObject {
-	l, ok := args[0].(pyList)
+	l, ok := asList(args[0])
 	s.Assert(ok, "Argument to all must be a list, not %s", args[0].Type())
 	for _, li := range l {
 		if !li.IsTruthy() {
@@ -1089,7 +1089,7 @@ func maxFunc(s *scope, args []pyObject) pyObject {
 }
 
 func extreme(s *scope, args []pyObject, cmp Operator) pyObject {
-	l, isList := args[0].(pyList)
+	l, isList := asList(args[0])
 	key, isFunc := args[1].(*pyFunc)
 	s.Assert(isList, "Argument seq must be a list, not %s", args[0].Type())
 	s.Assert(len(l) > 0, "Argument seq must contain at least one item")
@@ -1118,8 +1118,8 @@ func extreme(s *scope, args []pyObject, cmp Operator) pyObject {
 func zip(s *scope, args []pyObject) pyObject {
 	lastLen := 0
 	for i, seq := range args {
-		si, ok := seq.(pyList)
-		s.Assert(ok, "Arguments to zip must be lists, not %s", si.Type())
+		si, ok := asList(seq)
+		s.Assert(ok, "Arguments to zip must be lists, not %s", seq.Type())
 		// This isn't a restriction in Python but I can't be bothered handling all the stuff that real zip does.
 		s.Assert(i == 0 || lastLen == len(si), "All arguments to zip must have the same length")
 		lastLen = len(si)
@@ -1128,7 +1128,7 @@ func zip(s *scope, args []pyObject) pyObject {
 	for i := range ret {
 		r := make(pyList, len(args))
 		for j, li := range args {
-			r[j] = li.(pyList)[i]
+			r[j] = mustList(li)[i]
 		}
 		ret[i] = r
 	}
@@ -1278,14 +1278,15 @@ func addData(s *scope, args []pyObject) pyObject {
 			addDatumToTargetAndMaybeQueue(s, target, bi, systemAllowed, tool)
 		}
 	} else if isType(datum, "list") {
-		for _, str := range datum.(pyList) {
+		for _, str := range mustList(datum) {
 			if bi := parseBuildInput(s, str, string(label.(pyString)), systemAllowed, tool); bi != nil {
 				addDatumToTargetAndMaybeQueue(s, target, bi, systemAllowed, tool)
 			}
 		}
 	} else if isType(datum, "dict") {
-		for name, v := range datum.(pyDict) {
-			for _, str := range v.(pyList) {
+		d, _ := asDict(datum)
+		for name, v := range d {
+			for _, str := range mustList(v) {
 				if bi := parseBuildInput(s, str, string(label.(pyString)), systemAllowed, tool); bi != nil {
 					addNamedDatumToTargetAndMaybeQueue(s, name, target, bi, systemAllowed, tool)
 				}
